@@ -7,7 +7,8 @@ P=$(readlink -f "$1"); ID=$2; TIER=${3:-quick}
 D=$(mktemp -d /tmp/vmut.XXXXXX)
 cp /repo/cJSON.c /repo/cJSON.h /repo/cJSON_Utils.c /repo/cJSON_Utils.h $D/
 ( cd $D && git init -q . && ( git apply --unsafe-paths "$P" 2>/dev/null || patch -s -p1 --fuzz=3 < "$P" ) ) || { echo "patch does not apply"; rm -rf $D; exit 2; }
-OUT=$(cd $V && VERIF_REPO=$D ./tools/check $ID $TIER 2>&1); RC=$?
+ON=${VERIF_OUTNAME:-$ID-mut-$$}       # own scratch directory under out/: mutation runs of one property can run side by side
+OUT=$(cd $V && VERIF_OUTNAME=$ON VERIF_REPO=$D ./tools/check $ID $TIER 2>&1); RC=$?
 echo "$OUT" | grep -E "^VIOLATION|^check:|^KNOWN" | head -${MUT_LINES:-4}
-rm -rf $D $V/out/$ID/obj-* $V/out/$ID/vdrv-*
+rm -rf $D $V/out/$ON
 case $RC in 1) echo "CAUGHT $ID $(basename $(dirname $P))/$(basename $P)"; exit 0;; 0) echo "MISSED $ID $P"; exit 1;; *) echo "MACHINERY rc=$RC"; exit 2;; esac
